@@ -27,7 +27,7 @@ TIMEOUT = {"quick": 900, "thorough": 3600}
 ANCHORS = {"matrix_functions.py": ["matrix_inverse_root", "_matrix_inverse_root_eigen", "matrix_eigenvalue_decomposition"]}
 
 KINDS = ["zero", "rank_k", "indefinite", "ties", "generic", "tiny_negative"]
-ROOTS = [Fraction(1), Fraction(2), Fraction(3), Fraction(4), Fraction(6), Fraction(8), Fraction(400, 182), Fraction(3, 2), Fraction(10)]
+ROOTS = [Fraction(1), Fraction(2), Fraction(3), Fraction(4), Fraction(6), Fraction(8), Fraction(400, 182), Fraction(3, 2), Fraction(10), Fraction(1, 2), Fraction(3, 4), Fraction(2, 3), Fraction(100, 182)]
 C = 64.0
 
 
